@@ -28,17 +28,25 @@ Look(val, nm) ==
     [] nm.f = "oldx" -> IF IsNone(val.old[nm.e]) \/ val.old[nm.e].x = "-" THEN NoneS ELSE val.old[nm.e].x   \* d.e.old.attr
     [] OTHER        -> NoneS
 
-RECURSIVE EvalE(_, _), NamesE(_)
-EvalE(x, val) ==
-  CASE x.k = "eq"  -> Look(val, x.n) = x.c
-    [] x.k = "ne"  -> Look(val, x.n) # x.c
-    [] x.k = "and" -> EvalE(x.l, val) /\ EvalE(x.r, val)
-    [] x.k = "or"  -> EvalE(x.l, val) \/ EvalE(x.r, val)
-    [] x.k = "not" -> ~EvalE(x.a, val)
-    [] x.k = "ite" -> IF EvalE(x.c, val) THEN EvalE(x.t, val) ELSE EvalE(x.e, val)     \* conditional expression  t if c else e
-    [] OTHER       -> FALSE
+\* Three-valued evaluation: "T" truthy, "F" falsy, "E" the evaluation raises (int() of None or of a non-number);
+\* and / or / not / conditional expressions short-circuit as in Python.  An evaluation that raises is not truthy:
+\* no run for that event - and the trigger keeps serving the later ones.
+RECURSIVE EvalR(_, _), NamesE(_)
+B3(b) == IF b THEN "T" ELSE "F"
+EvalR(x, val) ==
+  CASE x.k = "eq"  -> B3(Look(val, x.n) = x.c)
+    [] x.k = "ne"  -> B3(Look(val, x.n) # x.c)
+    [] x.k = "intpos" -> LET s == Look(val, x.n) IN                       \* int(NAME) > 0
+                         IF s = "1" THEN "T" ELSE IF s = "0" THEN "F" ELSE "E"
+    [] x.k = "and" -> LET l == EvalR(x.l, val) IN IF l # "T" THEN l ELSE EvalR(x.r, val)
+    [] x.k = "or"  -> LET l == EvalR(x.l, val) IN IF l # "F" THEN l ELSE EvalR(x.r, val)
+    [] x.k = "not" -> LET a == EvalR(x.a, val) IN IF a = "E" THEN "E" ELSE IF a = "T" THEN "F" ELSE "T"
+    [] x.k = "ite" -> LET c == EvalR(x.c, val) IN                        \* conditional expression  t if c else e
+                      IF c = "E" THEN "E" ELSE IF c = "T" THEN EvalR(x.t, val) ELSE EvalR(x.e, val)
+    [] OTHER       -> "F"
+EvalE(x, val) == EvalR(x, val) = "T"
 NamesE(x) ==
-  CASE x.k \in {"eq", "ne"}  -> {x.n}
+  CASE x.k \in {"eq", "ne", "intpos"}  -> {x.n}
     [] x.k \in {"and", "or"} -> NamesE(x.l) \cup NamesE(x.r)
     [] x.k = "not"           -> NamesE(x.a)
     [] x.k = "ite"           -> NamesE(x.c) \cup NamesE(x.t) \cup NamesE(x.e)
